@@ -94,9 +94,10 @@ func streamC11(c *Ctx) {
 			o := runHistory(dr, im, lines, HistOpts{})
 			recordHistory(c, lines, &o, be)
 			if o.Index >= 0 {
-				reportHistoryProblem(c, dr, im, lines, &o, be, HistOpts{}, "roundtrip")
-				im.Destroy()
-				return
+				if reportHistoryProblem(c, dr, im, lines, &o, be, HistOpts{}, "roundtrip") {
+					im.Destroy()
+					return
+				}
 			}
 		}
 		im.Destroy()
@@ -512,8 +513,9 @@ func streamC15(c *Ctx) {
 			o := runHistory(dr, im, lines, HistOpts{})
 			recordHistory(c, lines, &o, bes[bi])
 			if o.Index >= 0 {
-				reportHistoryProblem(c, dr, im, lines, &o, bes[bi], HistOpts{}, "backends")
-				return
+				if reportHistoryProblem(c, dr, im, lines, &o, bes[bi], HistOpts{}, "backends") {
+					return
+				}
 			}
 			if bi == 0 {
 				oo := o
@@ -608,9 +610,10 @@ func streamC20(c *Ctx) {
 				}
 			}
 			if o.Index >= 0 {
-				reportHistoryProblem(c, dr, im, lines, &o, be, HistOpts{}, "panics")
-				im.Destroy()
-				return
+				if reportHistoryProblem(c, dr, im, lines, &o, be, HistOpts{}, "panics") {
+					im.Destroy()
+					return
+				}
 			}
 			if hN%3 == 0 {
 				im.Reopen() // the handle was closed by the history
